@@ -58,7 +58,10 @@ def absmax_scale(base: torch.Tensor, qtype: qtype = qint8, axis: Optional[int] =
         dim = axis_to_dim(base, axis)
         qranges = torch.amax(base, dim=dim, keepdim=True)
     info = dtype_info(qtype.dtype)
-    return qranges / info.max
+    # A null scale would produce NaN (0 / 0) when quantizing a null tensor, row or column:
+    # use at least the smallest positive (subnormal) value of the dtype
+    finfo = torch.finfo(base.dtype)
+    return torch.clamp(qranges / info.max, min=finfo.tiny * finfo.eps)
 
 
 class Calibration(TorchFunctionMode):
